@@ -1,10 +1,152 @@
 // C12 verify accepts exactly what decrypt accepts; writes nothing; inputs stay intact.
 #include "../tamper.h"
+#include "../spawn.h"
+#include <set>
 
 static const uint8_t MAGIC12[8] = {0xC3, 0xA5, 0xC3, 0xA5, 0xC3, 0xA5, 0xC3, 0xA5};
 
+// the production program on real files: -v and -d agree, -v creates nothing, no operation (including -e with
+// its default output name, for input paths of every length class) modifies its input file
+static std::set<std::string> list_dir(const std::string &d)
+{
+  std::set<std::string> r;
+  if (DIR *dir = opendir(d.c_str()))
+  {
+    while (struct dirent *e = readdir(dir))
+      r.insert(e->d_name);
+    closedir(dir);
+  }
+  return r;
+}
+static Verdict run_c12_cli(const Case &c)
+{
+  Verdict v;
+  const char *b1 = getenv("WENCRY_CLI");
+  if (!b1)
+  {
+    Verdict f = Verdict::fail("WENCRY_CLI not set");
+    f.infra = true;
+    return f;
+  }
+  const char *sroot = getenv("VERIF_SCRATCH");
+  std::string root = sroot ? sroot : "/verif/.scratch";
+  mkdir(root.c_str(), 0755);
+  static uint64_t seq = 0;
+  std::string dir = root + "/c12-" + std::to_string(getpid()) + "-" + std::to_string(seq++);
+  mkdir(dir.c_str(), 0755);
+  struct Cleaner
+  {
+    std::string d;
+    ~Cleaner() { rm_rf(d); }
+  } cleaner{dir};
+  std::string op = c.get("op", "e");
+  size_t plen = (size_t)c.geti("plen", 100), pathlen = (size_t)c.geti("pathlen", 0);
+  bytes P = expand((uint64_t)c.geti("pseed", 1), plen, 0);
+  bytes key = expand((uint64_t)c.geti("pseed", 1) + 17, 16, 0);
+  ref::FileParams fp;
+  fp.key = key;
+  fp.seed = bytes{'c', '1', '2'};
+  fp.cmode = (int)c.geti("cmode", 1);
+  fp.hmode = (int)c.geti("hmode", 0);
+  fp.T = 4;
+  fp.chunk = 1u << 24;
+  bytes in_bytes = P;
+  bool authentic = true;
+  if (op != "e")
+  {
+    in_bytes = ref::encrypt_file(P, fp);
+    long t = c.geti("tamper", 0);
+    if (t == 1)
+    {
+      in_bytes[in_bytes.size() - 3] ^= 0x20;
+      authentic = false;
+    }
+    else if (t == 2)
+    {
+      in_bytes.resize(in_bytes.size() - 5);
+      authentic = false;
+    }
+  }
+  std::string name = "f.bin", path = name;
+  if (pathlen > name.size())
+  {
+    std::string p;
+    while (p.size() + name.size() + 2 <= pathlen)
+      p += "./";
+    if (p.size() + name.size() < pathlen && !p.empty())
+      p.insert(p.size() - 1, "/");
+    path = p + name;
+  }
+  write_file(dir + "/" + name, std::string(in_bytes.begin(), in_bytes.end()));
+  std::string ks = ref::b64_encode(key.data(), 16);
+  if (c.geti("wrongkey"))
+  {
+    bytes w = key;
+    w[9] ^= 1;
+    ks = ref::b64_encode(w.data(), 16);
+    authentic = false;
+  }
+  v.nontrivial = true;
+  v.classes.push_back("cli/" + op);
+  v.classes.push_back(pathlen ? "long_or_exact_path" : "short_path");
+  v.distinct = fnv64("cli" + c.text());
+  auto bad = [&](const std::string &m) {
+    Verdict f = Verdict::fail(m + " [production CLI, op -" + op + ", input path of " + std::to_string(path.size()) + " characters, " + std::to_string(in_bytes.size()) + "-byte input]");
+    f.nontrivial = true;
+    f.classes = v.classes;
+    return f;
+  };
+  auto unchanged = [&]() {
+    std::string now = read_file(dir + "/" + name);
+    return now.size() == in_bytes.size() && memcmp(now.data(), in_bytes.data(), now.size()) == 0;
+  };
+  if (op == "e")
+  {
+    std::vector<std::string> av = {"-e", "-i", path, "-k", ks, "-n"};
+    if (c.geti("with_o"))
+    {
+      av.push_back("-o");
+      av.push_back("o.wenc");
+    }
+    RunRes r = spawn(b1, av, dir);
+    if (r.timed_out)
+      return v;
+    if (!unchanged())
+      return bad("encryption (exit " + std::to_string(r.code) + ") modified its input file");
+    return v;
+  }
+  std::set<std::string> before = list_dir(dir);
+  RunRes rv = spawn(b1, {"-v", "-i", path, "-k", ks, "-n"}, dir);
+  if (rv.timed_out)
+    return v;
+  std::set<std::string> after = list_dir(dir);
+  after.erase(".stdout");
+  after.erase(".stderr");
+  before.erase(".stdout");
+  before.erase(".stderr");
+  if (after != before)
+    return bad("verification created or removed a file in its directory");
+  if (!unchanged())
+    return bad("verification modified its input file");
+  RunRes rd = spawn(b1, {"-d", "-i", path, "-o", "dec.out", "-k", ks, "-n"}, dir);
+  if (rd.timed_out)
+    return v;
+  if (!unchanged())
+    return bad("decryption modified its input file");
+  bool vok = !rv.signaled && rv.code == 0, dok = !rd.signaled && rd.code == 0;
+  if (rv.signaled || rd.signaled)
+    return v; // crashes are C17's / C11's verdict
+  if (vok != dok)
+    return bad(std::string("-v ") + (vok ? "succeeds" : "fails") + " but -d " + (dok ? "succeeds" : "fails") + " on the same file and key");
+  v.classes.push_back(vok ? "cli_accepts" : "cli_rejects");
+  (void)authentic;
+  return v;
+}
+
 static Verdict run_c12(const Case &c)
 {
+  if (c.get("kind") == "cli")
+    return run_c12_cli(c);
   Verdict v;
   EncCase e = enc_from(c);
   std::string fk = c.get("filekind", "valid");
@@ -168,6 +310,40 @@ static void fixed_c12(Ctx &ctx)
 {
   const Prop *p = find_prop("C12");
   uint64_t i = 0;
+  if (ctx.mode == "cli")
+  {
+    std::vector<long> lens = {0, 100, 120, 121, 122, 123, 124, 125, 126, 127, 128, 129, 130, 200, 511, 512, 513, 1023, 1024, 1025};
+    for (long L = 244; L <= 262; L++)
+      lens.push_back(L);
+    if (ctx.thorough())
+      for (long L = 131; L <= 243; L += 3)
+        lens.push_back(L);
+    for (long L : lens)
+      for (const char *op : {"e", "v"})
+        for (int variant = 0; variant < (std::string(op) == "e" ? 2 : 3); variant++)
+        {
+          if (!mine(ctx, i++))
+            continue;
+          Case c;
+          c.set("kind", "cli");
+          c.set("op", op);
+          c.seti("pathlen", L);
+          c.seti("plen", 1255);
+          c.seti("pseed", L * 3 + variant);
+          c.seti("cmode", (L + variant) % 5);
+          c.seti("hmode", L % 3);
+          if (std::string(op) == "e")
+            c.seti("with_o", variant);
+          else
+          {
+            c.seti("tamper", variant == 1 ? 1 + (L % 2) : 0);
+            c.seti("wrongkey", variant == 2);
+          }
+          eval_fixed(*p, ctx, c);
+        }
+    ctx.stats.info["cli_part"] = "production binary on real files: input paths of 0/100/120-130/244-262/511-513/1023-1025 characters; -e (default and explicit output), -v then -d on valid, tampered and wrong-key files";
+    return;
+  }
   // valid files whose ciphertext body is an exact multiple of the chunk size, all modes (verify accepts: decrypt must, too)
   for (int cm = 0; cm < 5; cm++)
     for (int T : {1, 2, 3})
